@@ -1209,6 +1209,13 @@ class Exec:
             s.ghost = dict(s.ghost)
             s.ghost["out"] = (n + 1, (lambda k, n=n, at=at, v=v: v if (isinstance(k, int) and isinstance(n, int) and k == n)
                                       else merge_val(to_z3(k) == to_z3(n), v, at(k))))
+            # ghost: where each value was yielded = the indices of the enclosing for-loops at that moment (outermost
+            # first, padded with -1 to depth 3); readable in specs as src_[j][d]
+            lidx = tuple(s.ghost.get("lidx", ()))[:3]
+            here = tuple(lidx) + (-1,) * (3 - len(lidx))
+            sat = s.ghost.get("out_src") or (lambda k: (-1, -1, -1))
+            s.ghost["out_src"] = (lambda k, n=n, sat=sat, here=here: here if (isinstance(k, int) and isinstance(n, int) and k == n)
+                                  else tuple(merge_val(to_z3(k) == to_z3(n), a, b) for a, b in zip(here, sat(k))))
             for vname, upd in view_upd.items():
                 # view update: functional;  upd is a python callable (old_view, yielded value, state) -> new_view
                 s.ghost["view_" + vname] = upd(self, s, s.ghost.get("view_" + vname), v)
@@ -1470,7 +1477,12 @@ class Exec:
             nxt = []
             for s in sts:
                 for s2 in self.assign(n.target, elem(i), s):
+                    outer = tuple(s2.ghost.get("lidx", ()))
+                    s2.ghost = dict(s2.ghost)
+                    s2.ghost["lidx"] = outer + (i,)
                     for o in self.block(n.body, [s2]):
+                        o.ghost = dict(o.ghost)
+                        o.ghost["lidx"] = outer
                         if o.ctl == "continue":
                             o.ctl = None
                             nxt.append(o)
@@ -1523,6 +1535,7 @@ class Exec:
         g = st.ghost.get("out")
         if g is not None:
             env["out_"] = Seq(g[0], g[1])
+            env["src_"] = Seq(g[0], st.ghost.get("out_src") or (lambda k: (-1, -1, -1)))
         for kname, v in st.ghost.items():
             if kname.startswith("view_"):
                 env[kname] = v
@@ -1584,6 +1597,7 @@ class Exec:
             on = fresh(I, "out_n")
             h.assume(on >= 0)
             h.ghost["out"] = (on, self.fresh_elems(yt, "out", h))
+            h.ghost["out_src"] = self.fresh_elems(dsl.TupT(dsl.Int, dsl.Int, dsl.Int), "src", h)
         for kname in list(h.ghost):
             if kname.startswith("view_"):
                 mk = self.frames[0].contract.ghost.get(kname[5:])
@@ -1600,6 +1614,8 @@ class Exec:
         if is_for:
             b = h.fork("b")
             b.assume(to_z3(i) < to_z3(N))
+            b.ghost = dict(b.ghost)
+            b.ghost["lidx"] = tuple(h.ghost.get("lidx", ())) + (i,)
             bodies = self.assign(n.target, elem(i), b)
             guard_exit = [(self._assume(h.fork("e"), to_z3(i) == to_z3(N)))]
         else:
@@ -1621,6 +1637,9 @@ class Exec:
             if not self.feasible(b):
                 continue
             for o in self.block(n.body, [b]):
+                if is_for:
+                    o.ghost = dict(o.ghost)
+                    o.ghost["lidx"] = tuple(h.ghost.get("lidx", ()))
                 if o.ctl in (None, "continue"):
                     o.ctl = None
                     for lab, f in self.eval_invs(spec, o, (i + 1) if is_for else None, old_st):
